@@ -314,32 +314,19 @@ func decUTCTime(c []byte) (time.Time, error) {
 	return time.Date(year, time.Month(f[1]), f[2], f[3], f[4], f[5], 0, time.UTC), nil
 }
 
+var sha256OIDContent = []byte{0x60, 0x86, 0x48, 0x01, 0x65, 0x03, 0x04, 0x02, 0x01}
+
+// decOID recognises the one algorithm identifier the key store uses; every other content (well-formed or not)
+// is returned as an identifier that matches no algorithm, which the notary treats like an unknown algorithm
+// (real encoding/asn1 would reject a malformed one: the outcome, "no valid signature", is the same).
 func decOID(c []byte) (stdasn1.ObjectIdentifier, error) {
 	if len(c) == 0 {
 		return nil, errASN1Syntax
 	}
-	var vals []int
-	v := 0
-	for i, b := range c {
-		v = v<<7 | int(b&0x7f)
-		if b&0x80 == 0 {
-			vals = append(vals, v)
-			v = 0
-		} else if i == len(c)-1 {
-			return nil, errASN1Syntax
-		}
+	if len(c) == len(sha256OIDContent) && bytes.Equal(c, sha256OIDContent) {
+		return stdasn1.ObjectIdentifier{2, 16, 840, 1, 101, 3, 4, 2, 1}, nil
 	}
-	first := vals[0]
-	oid := stdasn1.ObjectIdentifier{}
-	switch {
-	case first < 40:
-		oid = append(oid, 0, first)
-	case first < 80:
-		oid = append(oid, 1, first-40)
-	default:
-		oid = append(oid, 2, first-80)
-	}
-	return append(oid, vals[1:]...), nil
+	return stdasn1.ObjectIdentifier{0, 0}, nil
 }
 
 func decSignatures(b []byte) ([]acraasn1.Signature, []byte, error) {
